@@ -37,6 +37,10 @@ pub enum Decoration {
     /// every feature carries the same name and none has a path (the same feature
     /// text handed over twice)
     DupPathless,
+    /// every feature carries the same name; the first one lies inside the project directory
+    /// (absolute path, displayed relative to it) and the others in a mirror of the tree that
+    /// merely *contains* the project directory's path (displayed in full)
+    MirrorPaths,
     /// every position moved down by 97 lines (two- and three-digit line numbers)
     /// and names / step texts carrying format and regex metacharacters
     BigLines,
@@ -59,6 +63,18 @@ fn meta(s: &str) -> String {
     format!("{s} {{}} {{0}} %s $1 \\n [z]* (y)+ a|b ^$ #x :")
 }
 
+/// The directory the reporters display paths relative to (as `writer::basic::trim_path` finds it).
+pub fn project_dir() -> String {
+    std::env::var("CARGO_WORKSPACE_DIR")
+        .or_else(|_| std::env::var("CARGO_MANIFEST_DIR"))
+        .unwrap_or_else(|_| std::env::current_dir().map(|p| p.display().to_string()).unwrap_or_default())
+}
+
+/// A feature path as the reports state it: the project directory trimmed off its *start*.
+pub fn displayed_path(p: &str) -> String {
+    p.trim_start_matches(project_dir().as_str()).trim_start_matches('/').trim_start_matches('\\').to_owned()
+}
+
 /// Parses the configuration's features and decorates names / paths.
 pub fn decorated_sources(cfg: &Config, o: &Opts) -> Sources {
     let mut feats: Vec<gherkin::Feature> =
@@ -71,7 +87,14 @@ pub fn decorated_sources(cfg: &Config, o: &Opts) -> Sources {
             Decoration::DupPathless => false,
             _ => o.path,
         };
-        if has_path {
+        if has_path && o.deco == Decoration::MirrorPaths {
+            let proj = project_dir();
+            f.path = Some(PathBuf::from(if i == 0 {
+                format!("{proj}/feat/m é.feature")
+            } else {
+                format!("/mirror{i}{proj}/feat/m é.feature")
+            }));
+        } else if has_path {
             f.path = Some(PathBuf::from(format!("feat/f{i} é.feature")));
         }
     }
@@ -112,7 +135,7 @@ pub fn decorated_sources(cfg: &Config, o: &Opts) -> Sources {
     let deco_name = |name: &str, is_scen: bool| -> String {
         match o.deco {
             Decoration::Plain => name.to_owned(),
-            Decoration::DupFeatures => name.to_owned(),
+            Decoration::DupFeatures | Decoration::MirrorPaths => name.to_owned(),
             // equal by value to the first feature's entities
             Decoration::DupPathless => name.replacen("F2", "F1", 1),
             Decoration::BigLines => meta(name),
@@ -147,7 +170,7 @@ pub fn decorated_sources(cfg: &Config, o: &Opts) -> Sources {
     };
     for mut f in feats {
         let key = f.name.clone();
-        f.name = if matches!(o.deco, Decoration::DupFeatures | Decoration::DupPathless) {
+        f.name = if matches!(o.deco, Decoration::DupFeatures | Decoration::DupPathless | Decoration::MirrorPaths) {
             "Dup".to_owned()
         } else {
             deco_name(&key, false)
@@ -213,7 +236,7 @@ pub fn facts(src: &Sources, stream: &[Ev]) -> Vec<serde_json::Value> {
                 let rule = r.as_ref().map(|r| &src.rules[r]);
                 let base = json!({
                     "feature": feat.name, "feature_keyword": feat.keyword,
-                    "path": feat.path.as_ref().map(|p| p.to_string_lossy().into_owned()),
+                    "path": feat.path.as_ref().map(|p| displayed_path(&p.to_string_lossy())),
                     "rule": rule.map(|r| r.name.clone()), "rule_line": rule.map(|r| r.position.line),
                     "rule_keyword": rule.map(|r| r.keyword.clone()),
                     "scenario": scen.name, "scenario_keyword": scen.keyword,
@@ -459,9 +482,10 @@ pub fn opt_sets(thorough: bool) -> Vec<Opts> {
             Decoration::Rich,
             Decoration::DupFeatures,
             Decoration::DupPathless,
+            Decoration::MirrorPaths,
             Decoration::BigLines,
         ] {
-            if deco == Decoration::DupPathless && path {
+            if (deco == Decoration::DupPathless && path) || (deco == Decoration::MirrorPaths && !path) {
                 continue;
             }
             if deco == Decoration::Rich {
@@ -593,7 +617,7 @@ pub fn run(a: &ShardArgs) -> serde_json::Value {
             if o.deco == Decoration::SameNames && case.u.is_none() {
                 continue;
             }
-            if matches!(o.deco, Decoration::DupFeatures | Decoration::DupPathless)
+            if matches!(o.deco, Decoration::DupFeatures | Decoration::DupPathless | Decoration::MirrorPaths)
                 && !matches!(case.u, Some((_, h_sum::Placement::OtherFeature)))
             {
                 continue;
@@ -680,7 +704,7 @@ pub fn run(a: &ShardArgs) -> serde_json::Value {
         "property": "C14", "tier": a.tier,
         "total_configs": cs.len() * osets.len(), "configs_done": evaluations, "configs_skipped_budget": skipped,
         "evaluations": evaluations, "distinct_nontrivial": nontrivial.len(),
-        "rule": "streams of the C12 grammar (quick: every 2nd single-scenario and every 24th two-scenario case) x {with path, path-less} x {plain, quotes/markup/non-ASCII names, same-named scenarios, rich (doc strings, tables, logs, World), same-named features of which one is path-less, same-named features none of which has a path, positions shifted to two/three-digit lines with format/regex metacharacters in names} x reporter options (libtest show_output / report_time, verbosity 0/1) through Summarize<Normalize<Basic>> and Normalize<Libtest|Json|JUnit> into memory sinks; the terminal [Summary] block is parsed and compared with a recount of the stream; outputs parsed back by tools/parse_reports.py (json, xml.etree, line parser); non-trivial = distinct (stream, options) with a non-passed fact",
+        "rule": "streams of the C12 grammar (quick: every 2nd single-scenario and every 24th two-scenario case) x {with path, path-less} x {plain, quotes/markup/non-ASCII names, same-named scenarios, rich (doc strings, tables, logs, World), same-named features of which one is path-less, same-named features none of which has a path, same-named features at <project dir>/p and <elsewhere>/<project dir>/p, positions shifted to two/three-digit lines with format/regex metacharacters in names} x reporter options (libtest show_output / report_time, verbosity 0/1) through Summarize<Normalize<Basic>> and Normalize<Libtest|Json|JUnit> into memory sinks; the terminal [Summary] block is parsed and compared with a recount of the stream; outputs parsed back by tools/parse_reports.py (json, xml.etree, line parser); non-trivial = distinct (stream, options) with a non-passed fact",
         "exhaustive": skipped == 0,
         "details": {"records_parsed_back": parsed_ok},
         "violations": violations, "samples": samples,
